@@ -14,7 +14,7 @@ def schedule(seed):
     r = random.Random(seed)
     mode = r.choice(["plain", "plain", "sw", "occ"])
     nitems = r.randrange(2, 6)
-    maint = r.choice(["none", "none", "flush", "major", "flush"])
+    maint = r.choice(["none", "writer", "flush", "major", "flush", "writer"])
     use_tx = mode != "plain" and r.random() < 0.5
     items = [(r.choice(["h0", "h1"]), r.choice(KEYS), "%02x" % r.randrange(1, 255)) for _ in range(nitems)]
     # distinct (handle,key) so that partial application is observable item by item
@@ -45,6 +45,9 @@ def schedule(seed):
         L += ["release worker.flush.before", "sleep 150"]
     elif maint == "major":
         L += ["major h2"]
+    elif maint == "writer":
+        # a second writer arrives inside the window: it must wait for the journal lock (its result arrives later)
+        L += ["thread w2 put h2 6c 01 &", "sleep 120"]
     L += ["snap s0 open", "scan s0 h0 fwd all", "scan s0 h1 fwd all", "scan - h0 fwd all", "scan - h1 fwd all"]
     L += ["release %s" % site, "sleep 150"]
     after = len(L)
@@ -89,6 +92,93 @@ def judge(sc):
     return dict(sc=sc, obs=o, problems=problems)
 
 
+def race(seed):
+    """lock hand-over race: writer w2 is held inside its critical section (ks.after_journal: journal lock held); a batch
+    (thread w) and another single write (thread w3) queue up for the lock; w2 is released; the batch is held after its
+    first item.  Whoever wins the lock, a snapshot taken now must see none of the batch.  Repeated, because the OS decides
+    the hand-over order."""
+    r = random.Random(seed)
+    L = ["open plain", "ks h0 alpha", "ks h1 beta", "ks h2 gamma", "put h0 6b 00", "put h1 6b 00"]
+    checks = []
+    for rd in range(8):
+        v = "%02x" % (rd + 1)
+        L += ["pausepoint ks.after_journal 1 hold", "thread w2 put h2 6c %s &" % v, "waitpause ks.after_journal",
+              "pausepoint batch.after_item 1 hold",
+              # the single write queues for the lock first, the batch second (lock hand-over is FIFO in practice);
+              # odd rounds use the opposite order
+              *(["thread w3 put h2 6d %s &" % v, "sleep 30",
+                 "thread w batch - h0:p:61:%s h0:p:62:%s h1:p:61:%s h1:p:62:%s &" % (v, v, v, v), "sleep 30"] if rd % 2 == 0 else
+                ["thread w batch - h0:p:61:%s h0:p:62:%s h1:p:61:%s h1:p:62:%s &" % (v, v, v, v), "sleep 30",
+                 "thread w3 put h2 6d %s &" % v, "sleep 30"]),
+              "pausepoint ks.after_journal 1 off", "release ks.after_journal", "waitpause batch.after_item", "sleep 30",
+              "snap s%d open" % rd, "scan s%d h0 fwd all" % rd, "scan s%d h1 fwd all" % rd]
+        checks.append((len(L) - 1, len(L), v))
+        L += ["release batch.after_item", "sleep 60", "pausepoint batch.after_item 1 off", "snap s%d close" % rd]
+    prog = "\n".join(L) + "\n"
+    o, raw, rc = run_fjv(prog, timeout=120)
+    bad = []
+    prev = "00"
+    for (l0, l1, v) in checks:
+        a, b = parse(o.get(l0)), parse(o.get(l1))
+        seen = {a.get("61"), a.get("62"), b.get("61"), b.get("62")}
+        # inside the window: all four keys still carry the previous round's value (or nothing in round 0)
+        if len(seen) != 1:
+            bad.append((v, o.get(l0), o.get(l1)))
+    return dict(prog=prog, bad=bad, obs=o)
+
+
+def stress(seed):
+    """free-running threads, no maintenance (no tree version upgrade can occur): W writers commit batches that set the
+    same fresh value on 4 keys over two keyspaces; R readers open a snapshot and scan both keyspaces.  Every
+    snapshot must show ONE value on all four keys (atomic and in commit order)."""
+    r = random.Random(seed)
+    W, R = r.choice([2, 3, 4]), r.choice([2, 3])
+    nb, ns = 25, 70
+    NK = 120
+    keys = ["6b%04x" % i for i in range(NK)]
+
+    def big(v):
+        return " ".join(["h0:p:%s:%s" % (k, v) for k in keys[:NK // 2]] + ["h1:p:%s:%s" % (k, v) for k in keys] +
+                        ["h0:p:%s:%s" % (k, v) for k in keys[NK // 2:]])
+    L = ["open %s" % r.choice(["plain", "plain", "sw"]), "ks h0 alpha", "ks h1 beta", "batch - " + big("0000")]
+    plan = ["w%d" % i for i in range(W) for _ in range(nb)] + ["r%d" % i for i in range(R) for _ in range(ns)]
+    r.shuffle(plan)
+    cnt = {}
+    snaps = []
+    for t in plan:
+        cnt[t] = cnt.get(t, 0) + 1
+        if t[0] == "w":
+            v = "%02x%02x" % (int(t[1:]) + 1, cnt[t])
+            L.append("thread %s batch - %s &" % (t, big(v)))
+        else:
+            sname = "s%d" % (int(t[1:]) * 1000 + cnt[t])
+            L.append("thread %s snap %s open &" % (t, sname))
+            L.append("thread %s scan %s h0 fwd all &" % (t, sname))
+            L.append("thread %s scan %s h1 fwd all &" % (t, sname))
+            L.append("thread %s snap %s close &" % (t, sname))
+            snaps.append(sname)
+    prog = "\n".join(L) + "\n"
+    o, raw, rc = run_fjv(prog, timeout=120)
+    lines = prog.splitlines()
+    per = {}
+    for i, l in enumerate(lines, 1):
+        t = l.split()
+        if len(t) > 3 and t[0] == "thread" and t[2] == "scan":
+            per.setdefault(t[3], []).append(o.get(i))
+    bad = []
+    for sname, scans in per.items():
+        vals = set()
+        for sc in scans:
+            if sc is None or sc.startswith(("err", "panic")):
+                bad.append((sname, scans))
+                break
+            vals.update(x.split("=")[1] for x in sc.split(",") if "=" in x)
+        else:
+            if len(vals) != 1:
+                bad.append((sname, scans))
+    return dict(prog=prog, snapshots=len(per), bad=bad, writers=W, readers=R)
+
+
 def run(rep, tier, seed, build):
     n = 120 if tier == "quick" else 3000
     scs = [schedule(seed * 179424673 + i) for i in range(n)]
@@ -108,7 +198,16 @@ def run(rep, tier, seed, build):
         rep.violation("# C06: %s: %s\n# schedule (%s, pause at %s, maintenance in window: %s):\n%s# observations: %s\n"
                       % (x["problems"][0][0], x["problems"][0][1], x["sc"]["mode"], x["sc"]["site"], x["sc"]["maint"],
                          x["sc"]["prog"], {k: v for k, v in sorted(x["obs"].items())}))
-    rep.coverage = dict(evaluations=n, distinct_nontrivial=len({(x["sc"]["site"], x["sc"]["maint"], x["sc"]["mode"], len(x["sc"]["items"]), x["sc"]["tx"]) for x in res}),
+    rc_ = pmap(race, [seed * 13 + i for i in range(6 if tier == "quick" else 60)], workers=6)
+    for x in [x for x in rc_ if x["bad"]][:2]:
+        rep.violation("# C06: lock hand-over race: a snapshot taken while a batch was held after its first item sees part of it: %s\n%s"
+                      % (x["bad"][0], x["prog"]))
+    st = pmap(stress, [seed * 7 + i for i in range(6 if tier == "quick" else 60)], workers=3)
+    for x in [x for x in st if x["bad"]][:2]:
+        rep.violation("# C06: a snapshot taken while %d writers commit 4-key batches (no maintenance running) shows a torn or "
+                      "out-of-order batch: %s\n%s" % (x["writers"], x["bad"][0], x["prog"]))
+    rep.coverage = dict(evaluations=n + sum(x["snapshots"] for x in st), stress_runs=len(st), race_rounds=8 * len(rc_),
+                        stress_snapshots=sum(x["snapshots"] for x in st), distinct_nontrivial=len({(x["sc"]["site"], x["sc"]["maint"], x["sc"]["mode"], len(x["sc"]["items"]), x["sc"]["tx"]) for x in res}),
                         rule="schedules: a batch or transaction commit of 2-5 items over two keyspaces is held at a pause point (after "
                              "the seqno draw / after the i-th item / before publish); inside the window a reader opens a snapshot and "
                              "scans every keyspace, single scans run, and optionally a flush of a third keyspace (worker held after its "
